@@ -129,7 +129,11 @@ MonUnmap(s, e) ==
   LET i == IdxOf(s.U, e.pg)
       T == IF i = 0 THEN <<>> ELSE (i :> Unm)
   IN [s |-> Adopt(s, e),
-      cs |-> << <<"HARNESS", i = 0 \/ ~ViaOK(s, e), "unmap: page outside the universe or wrong address space">> >>
+      cs |-> << <<"HARNESS", i = 0 \/ ~ViaOK(s, e), "unmap: page outside the universe or wrong address space">>,
+                \* an error is only an acceptable answer for a page that is not mapped (huge upper-level entries are not generated)
+                <<"C04", i # 0 /\ e.pdt \in 1..Len(s.trans) /\ e.res \notin {"ok", "panic"}
+                         /\ (IF i # 0 /\ e.pdt \in 1..Len(s.trans) THEN s.trans[e.pdt][i] # Unm ELSE FALSE),
+                         <<"unmap of a mapped page returned", e.res>> >> >>
              \o OpChecks(s, e, e.pdt, T, "unmap")]
 
 MonMapTemp(s, e) ==
